@@ -13,7 +13,7 @@ import (
 func init() {
 	register(&Rule{
 		Name:     "STRUCTNIL",
-		Doc:      "in the path walkers of thrift/generic (functions that switch over the path-step kind), every `d.Struct().M(…)` inside a clause for PathFieldId / PathFieldName is preceded in that clause by a test that d is a STRUCT descriptor (`d.Type() != thrift.STRUCT`, `d.Struct() == nil` …): the step kind comes from the caller, not from the schema",
+		Doc:      "in the path walkers of thrift/generic (functions that switch over the path-step kind), every `d.Struct().M(…)` inside a clause for PathFieldId / PathFieldName is preceded in that clause by a test that d is a STRUCT descriptor (`d.Type() != thrift.STRUCT`, `d.Struct() == nil` …): the step kind comes from the caller, not from the schema; (b) likewise every `d.Elem()` / `d.Key()` inside a clause for PathIndex / PathStrKey / PathIntKey / PathBinKey is preceded by a test of d's type",
 		Configs:  "NP",
 		Floor:    map[string]int{"N": 2, "P": 2},
 		Controls: 1,
@@ -35,6 +35,59 @@ func runStructNil(rc *RuleCtx) {
 				}
 			}
 			if !isField {
+				// clause (b): element / key steps narrow the descriptor with Elem() / Key(), which are nil for a
+				// descriptor that is not a container — the step kind comes from the caller here, too
+				isElem := false
+				for _, l := range cl.labels {
+					switch l.name {
+					case "PathIndex", "PathStrKey", "PathIntKey", "PathBinKey":
+						isElem = true
+					}
+				}
+				if !isElem {
+					continue
+				}
+				tested := map[string]bool{}
+				for _, st := range cl.body {
+					if is, ok := st.(*ast.IfStmt); ok {
+						// the test may sit in the condition or in the if's init statement (`if t := d.Type(); t != LIST …`)
+						for _, part := range []ast.Node{is.Init, is.Cond} {
+							if part == nil || part == ast.Node((*ast.AssignStmt)(nil)) {
+								continue
+							}
+							ast.Inspect(part, func(n ast.Node) bool {
+								if ce, ok := n.(*ast.CallExpr); ok {
+									if sel, ok := ce.Fun.(*ast.SelectorExpr); ok && (sel.Sel.Name == "Type" || sel.Sel.Name == "Elem" || sel.Sel.Name == "Key") {
+										tested[types.ExprString(ast.Unparen(sel.X))] = true
+									}
+								}
+								return true
+							})
+						}
+					}
+					ast.Inspect(st, func(n ast.Node) bool {
+						ce, ok := n.(*ast.CallExpr)
+						if !ok {
+							return true
+						}
+						sel, ok := ce.Fun.(*ast.SelectorExpr)
+						if !ok || (sel.Sel.Name != "Elem" && sel.Sel.Name != "Key") {
+							return true
+						}
+						if t := info.TypeOf(sel.X); t == nil || !strings.HasSuffix(typeShort(t), "thrift.TypeDescriptor") {
+							return true
+						}
+						if _, inCond := st.(*ast.IfStmt); inCond {
+							return true
+						}
+						rc.Examined++
+						d := types.ExprString(ast.Unparen(sel.X))
+						good := tested[d]
+						rc.add(nil, ks.fnName, d+"."+sel.Sel.Name+"() in element step", ce.Pos(), map[bool]string{true: "discharged", false: "violated"}[good],
+							map[bool]string{true: "the descriptor is tested to be a container before it is narrowed to its element / key", false: "an index / key step (chosen by the caller) narrows `" + d + "` with " + sel.Sel.Name + "() without testing that it is a LIST/SET/MAP descriptor: for a struct or scalar descriptor the result is nil and the next use panics"}[good], false)
+						return true
+					})
+				}
 				continue
 			}
 			// statements in order: remember descriptor variables that have been type-tested
